@@ -13,12 +13,12 @@ F = lambda *p: ("f", tuple(p))
 OP = lambda op, a, b: ("op", op, a, b)
 
 SLOT_TYPES = ["u8", "i8", "u16", "i16be", "bcd8", "u32", "enum8", "inner", "dyn", "pars", "bitsT", "anon",
-              "arr_u8x2", "arr_auto", "arr_i16x2", "arr_inner", "f32", "bcd16", "u64", "senum8", "arr_bits", "i32"]
-STARTS = ["const", "off", "next", "next+1", "off+1", "overlap", "prevval", "2*off+1", "fwdval"]
+              "arr_u8x2", "arr_auto", "arr_i16x2", "arr_inner", "f32", "bcd16", "u64", "senum8", "arr_bits", "i32", "zero_tail", "arr_u24x2", "arr_tri", "enumk8"]
+STARTS = ["const", "off", "next", "next+1", "off+1", "overlap", "prevval", "2*off+1", "fwdval", "off-2"]
 CONDS = ["always", "tag==1", "tag==2", "off<3", "flg", "flg&&tag==1", "flg||tag==1", "present_prev", "tag==5",
          "param", "prev==7", "tag!=0&&len==1", "prev==7&&tag==1", "tag==1&&prev==7", "prev==7||tag==1",
          "tag==1||prev==7", "fwd==7"]
-CONDALL = ["none", "tag==1", "off<3"]
+CONDALL = ["none", "tag==1", "off<3", "tag==1&req"]
 ATTRS = ["none", "req<100", "req!=0", "skip", "emit"]
 VIRTS = ["none", "x+1", "10-x", "alias", "nested_inv", "const", "bool", "max", "choice", "x+1_req", "cond_virt",
          "alias_nested", "k+x", "x*2", "neg", "abs", "c2^31", "c2^32", "c2^63", "c-2^63", "c2^64-1", "c2^31-1", "cbool"]
@@ -27,7 +27,7 @@ PARAMS = ["none", "uint4", "int4", "enum"]
 
 DEFAULT_SIZE = {"u8": 1, "i8": 1, "u16": 2, "i16be": 2, "bcd8": 1, "u32": 4, "enum8": 1, "inner": 2, "dyn": 3, "pars": 2,
                 "bitsT": 1, "anon": 1, "arr_u8x2": 2, "arr_auto": None, "arr_i16x2": 4, "arr_inner": 4, "f32": 4,
-                "bcd16": 2, "u64": 8, "senum8": 1, "arr_bits": 2, "i32": 4}
+                "bcd16": 2, "u64": 8, "senum8": 1, "arr_bits": 2, "i32": 4, "zero_tail": 0, "arr_u24x2": 6, "arr_tri": 6, "enumk8": 1}
 INT_SCALARS = {"u8", "i8", "u16", "i16be", "bcd8", "u32", "bcd16", "u64", "i32"}
 
 
@@ -67,6 +67,13 @@ def _pars():
     return A.Struct("ParS", "struct", [("pp", ("UInt", 8))], [
         A.Field("y", ("UInt", None), C(0), C(1)),
         A.Field("z", ("UInt", None), C(1), C(1), cond=OP("==", F("pp"), C(1))),
+    ])
+
+
+def _tri():
+    return A.Struct("Tri", "struct", (), [
+        A.Field("lo", ("UInt", None), C(0), C(1)),
+        A.Field("hi", ("UInt", None), C(1), C(2)),
     ])
 
 
@@ -168,9 +175,19 @@ def program(ch, menu=None):
         elif st == "arr_bits":
             typ = ("array", ("struct", "Bt", ()), C(2))
             need.add("Bt")
+        elif st == "zero_tail":
+            typ = ("array", ("UInt", 8), None)         # a zero-length end marker past every other field
+        elif st == "arr_u24x2":
+            typ = ("array", ("UInt", 24), C(2))
+        elif st == "arr_tri":
+            typ = ("array", ("struct", "Tri", ()), C(2))
+            need.add("Tri")
+        elif st == "enumk8":
+            typ = ("enum", "KindK", None)
+            need.add("KindK")
         # ---- start
         if start_kind == "const":
-            start = C(pos)
+            start = C(pos + 2) if st == "zero_tail" else C(pos)
         elif start_kind == "off":
             start = F("off")
         elif start_kind == "next":
@@ -188,6 +205,8 @@ def program(ch, menu=None):
                 start = F("off")
         elif start_kind == "2*off+1":
             start = OP("+", OP("*", C(2), F("off")), C(1))
+        elif start_kind == "off-2":
+            start = OP("-", F("off"), C(2))
         elif start_kind == "fwdval":
             start = F("f%d" % (i + 1)) if i + 1 < nslots else F("off")
         # ---- condition
@@ -234,13 +253,15 @@ def program(ch, menu=None):
         elif cond_kind == "fwd==7":
             # forward reference: the condition reads a field declared later in the source
             cond = OP("==", F("f%d" % (i + 1)), C(7)) if i + 1 < nslots else OP("==", F("tag"), C(1))
-        if cond is None and condall == "tag==1":
+        if cond is None and condall in ("tag==1", "tag==1&req"):
             cond = OP("==", F("tag"), C(1))
         elif cond is None and condall == "off<3":
             cond = OP("<", F("off"), C(3))
         # ---- attributes
         req = None
         text_output = None
+        if attr_kind == "none" and condall == "tag==1&req" and st in INT_SCALARS:
+            req = OP("<", ("this",), C(100))
         if attr_kind == "req<100" and st in INT_SCALARS:
             req = OP("<", ("this",), C(100))
         elif attr_kind == "req!=0" and st in INT_SCALARS:
@@ -324,8 +345,12 @@ def program(ch, menu=None):
         enums.append(_kind_enum())
     if "SKind" in need:
         enums.append(_skind_enum())
+    if "KindK" in need:
+        ek = A.Enum("KindK", [("KA", 0), ("K_B", 1), ("KCC_1", 2)])
+        ek.enum_case = "kCamelCase"
+        enums.append(ek)
     structs = []
-    for nm, mk in (("Inner", _inner), ("Dyn", _dyn), ("ParS", _pars), ("Bt", _bits_t)):
+    for nm, mk in (("Inner", _inner), ("Dyn", _dyn), ("ParS", _pars), ("Bt", _bits_t), ("Tri", _tri)):
         if nm in need:
             structs.append(mk())
     structs.append(main)
